@@ -149,7 +149,11 @@ def image_clearance(s):
 @st.composite
 def presentations(draw, permute=True):
     far = draw(st.integers(0, 3)) == 0      # a quarter of the presentations move the crystal far away from its cell (rigid translations are unbounded)
-    tr = gc.ffloat(-40.0, 40.0) if far else gc.ffloat(-5.0, 5.0)
+    if far:
+        # Hypothesis' floats cluster around small "simple" values: the far components are built from an explicit magnitude
+        tr = st.builds(lambda m, e: m + e, st.sampled_from([-40.0, 25.0, -15.0, 9.0, 0.0, -9.0, 15.0, -25.0, 40.0]), gc.ffloat(-1.0, 1.0))
+    else:
+        tr = gc.ffloat(-5.0, 5.0)
     return {"quat": draw(st.lists(gc.ffloat(-1.0, 1.0), min_size=4, max_size=4)), "trans": [draw(tr) for _ in range(3)],
             "perm": draw(seeds) if permute else None, "noise_seed": draw(seeds), "sbc_seed": draw(st.integers(0, 10 ** 6))}
 
